@@ -12,7 +12,8 @@ MANIFEST = dict(
          "C05_setup (safe type, both delays in range), C05_channel_value (no counterparty signature above the size "
          "limit), C05_onchain (nothing beyond commitment 0 while funding unconfirmed or closed), C05_usable_only_after_setup "
          "(over all request histories on a channel id: a signed / accepted commitment belongs to a ready channel whose "
-         "setup passed validate_setup_channel), filter theorems (only "
+         "setup passed validate_setup_channel), C05_signed_commitment_bounds (a phase-2 signature is for the request's own "
+         "lists, repeated HTLC entries included, and that content is within the bounds), filter theorems (only "
          "an explicit Warn rule downgrades).  The model is run against the real validators (through the Validator "
          "trait) and against Channel::sign_counterparty_commitment_tx_phase2 on every run with boundary-crossed "
          "inputs, and an independent u128 reference predicate monitors every acceptance.",
